@@ -12,7 +12,8 @@ EXPLANATION = (
     'element returned is the stored one, only the addressed slot is replaced, errors leave the storage untouched, '
     'literal vectors are immutable; (no-frame-copy, vector-type) no deep copy of frames or of vector storage on '
     'evaluator paths: Value::Vector holds an Rc-shared ValueReference, the derived LexicalScope::clone has no '
-    'caller.')
+    'caller. vector-set! of a value equal to, but not the same object as, the current element still stores it '
+    '(mutable) and is still refused (literal).')
 NOT_DECIDED = "the alias relation over arbitrary operation histories."
 
 INTERP = "interpreter::interpreter::Interpreter::"
